@@ -297,7 +297,7 @@ def _klen(rng, n):
 
 def cases(rng, tier):
     out = list(_corpus()) if tier != 'search' else []
-    nrand = dict(quick=2200, thorough=45000, search=9000)[tier]
+    nrand = dict(quick=8000, thorough=150000, search=20000)[tier]
     # systematic 1-D sweep
     sweep = []
     for n in range(1, 6):
@@ -342,10 +342,12 @@ def cases(rng, tier):
                             wshape=wshape, w=_weights(rng, int(np.prod(wshape)), dtype), mode=mode, layout=layout,
                             wlayout=rng.choice(['C', 'C', 'F', 'strided', 'negstride'])))
         elif r < 0.80:
-            shape = list(gen.small_shape(rng, maxlen=9))
+            shape = list(gen.small_shape(rng, maxlen=9, bias=(1, 2, 3, 5, 8)))
             nd = len(shape)
             axis = rng.randrange(-nd, nd)
             nf = _klen(rng, shape[axis])
+            if shape[axis] >= 2 and rng.random() < 0.45:
+                nf = rng.randint(1, shape[axis] - 1)        # the Python guard of the fast path
             out.append(dict(kind='convolve1d', dtype=dtype, shape=shape, data=_values(rng, int(np.prod(shape)), dtype),
                             w=_weights(rng, nf, dtype), axis=axis, mode=mode,
                             layout=layout if rng.random() < 0.5 else 'C',
